@@ -1,1 +1,90 @@
 // Kani contract harnesses for /repo/parquet/src/column/writer/encoder.rs (child module: sees private items via super::)
+use super::*;
+#[path = "/verif/kani/support/spec.rs"]
+mod spec;
+#[allow(unused_imports)]
+use spec::*;
+use crate::basic::{ConvertedType, Type};
+use crate::schema::types::ColumnDescriptor;
+
+fn mk_descr(phys: Type, conv: ConvertedType) -> ColumnDescriptor {
+    let t = crate::schema::types::Type::primitive_type_builder("c", phys).with_converted_type(conv).build().unwrap();
+    ColumnDescriptor::new(std::sync::Arc::new(t), 0, 0, crate::schema::types::ColumnPath::new(Vec::new()))
+}
+fn ieee_nan32(bits: u32) -> bool { (bits >> 23) & 0xff == 0xff && bits & 0x7f_ffff != 0 }
+
+// Contract (C07): get_min_max over a batch of N f32 values (the page/chunk statistics of a FLOAT column):
+//   None <=> the batch is empty; otherwise Some((min, max, nan_count)) with
+//   nan_count = number of NaN bit patterns in the batch (exact);
+//   if some value is not NaN: min and max are non-NaN elements of the batch (attained) and
+//   key(min) <= key(v) <= key(max) for EVERY non-NaN v under IEEE totalOrder (bounds never exclude present data);
+//   if all values are NaN: min and max are elements of the batch (NaN), min <= max under totalOrder.
+macro_rules! min_max_f32_unit {
+    ($name:ident, $n:expr) => {
+        #[kani::proof]
+        #[kani::unwind(6)]
+        #[kani::stub(alloc::fmt::format, stub_format)]
+        fn $name() {
+            let d = mk_descr(Type::FLOAT, ConvertedType::NONE);
+            let bits: [u32; $n] = kani::any();
+            let mut vals = [0f32; $n];
+            let (mut i, mut nans) = (0, 0u64);
+            while i < $n { vals[i] = f32::from_bits(bits[i]); if ieee_nan32(bits[i]) { nans += 1; } i += 1; }
+            match get_min_max(d.get_basic_info(), vals.iter()) {
+                None => assert!($n == 0),
+                Some((mn, mx, nc)) => {
+                    let (mn, mx) = (mn.to_bits(), mx.to_bits());
+                    assert!(nc == nans);
+                    let (mut mn_in, mut mx_in, mut i) = (false, false, 0);
+                    while i < $n {
+                        if bits[i] == mn { mn_in = true; }
+                        if bits[i] == mx { mx_in = true; }
+                        if !ieee_nan32(bits[i]) { assert!(key32(mn) <= key32(bits[i]) && key32(bits[i]) <= key32(mx)); }
+                        i += 1;
+                    }
+                    assert!(mn_in && mx_in);
+                    assert!(key32(mn) <= key32(mx));
+                    if nans < $n as u64 { assert!(!ieee_nan32(mn) && !ieee_nan32(mx)); }
+                    else { assert!(ieee_nan32(mn) && ieee_nan32(mx)); }
+                    kani::cover!($n == 1 || (nans == 1 && ieee_nan32(bits[0])));   // leading NaN is replaced by the first real value
+                    kani::cover!(nans == $n as u64);                              // all NaN
+                    kani::cover!(nans == 0 && ($n == 1 || mn != mx));
+                }
+            }
+            std::mem::forget(d);
+        }
+    };
+}
+// @unit name=get_min_max_f32_n3 props=C07 kind=bounded bound=batch_of_3_values fns=get_min_max,is_nan,compare_greater timeout=600 tier=thorough
+min_max_f32_unit!(get_min_max_f32_n3, 3);
+// @unit name=get_min_max_f32_n1 props=C07 kind=bounded bound=batch_of_1_value fns=get_min_max,is_nan,compare_greater timeout=600 tier=thorough
+min_max_f32_unit!(get_min_max_f32_n1, 1);
+// @unit name=get_min_max_f32_n4 props=C07 kind=bounded bound=batch_of_4_values fns=get_min_max,is_nan,compare_greater tier=thorough timeout=900
+min_max_f32_unit!(get_min_max_f32_n4, 4);
+
+// Contract (C07): get_min_max over N i32 values of a UINT_32 column uses the UNSIGNED order: min/max are elements,
+// (min as u32) <= (v as u32) <= (max as u32) for every v; nan_count = 0. For a plain INT32 column: the signed order.
+// @unit name=get_min_max_i32_n3 props=C07 kind=bounded bound=batch_of_3_values fns=get_min_max,compare_greater timeout=600 tier=thorough
+#[kani::proof]
+#[kani::unwind(6)]
+#[kani::stub(alloc::fmt::format, stub_format)]
+fn get_min_max_i32_n3() {
+    let du = mk_descr(Type::INT32, ConvertedType::UINT_32);
+    let ds = mk_descr(Type::INT32, ConvertedType::NONE);
+    let v: [i32; 3] = kani::any();
+    let (umn, umx, unc) = get_min_max(du.get_basic_info(), v.iter()).unwrap();
+    let (smn, smx, snc) = get_min_max(ds.get_basic_info(), v.iter()).unwrap();
+    assert!(unc == 0 && snc == 0);
+    let mut i = 0; let (mut a, mut b, mut c, mut e) = (false, false, false, false);
+    while i < 3 {
+        assert!((umn as u32) <= (v[i] as u32) && (v[i] as u32) <= (umx as u32));
+        assert!(smn <= v[i] && v[i] <= smx);
+        a |= v[i] == umn; b |= v[i] == umx; c |= v[i] == smn; e |= v[i] == smx;
+        i += 1;
+    }
+    assert!(a && b && c && e);
+    kani::cover!(umn != smn);
+    let empty: [i32; 0] = [];
+    assert!(get_min_max(ds.get_basic_info(), empty.iter()).is_none());
+    std::mem::forget(du); std::mem::forget(ds);
+}
